@@ -4,7 +4,7 @@
 Require Extraction.
 Require ExtrOcamlBasic.
 From Coq Require Import List NArith.
-From SV Require Import Params Codec.Varint Codec.Schedule Clock.VClock Prim.Objects Prim.Atomic Engine.Exec Engine.Runner Prim.Semaphore Lang.SyncOps Lang.SyncOps2 Lang.Prog Sched.Dfs Sched.Random Sched.Replay.
+From SV Require Import Params Codec.Varint Codec.Schedule Clock.VClock Prim.Objects Prim.Atomic Engine.Exec Engine.Runner Prim.Semaphore Lang.SyncOps Lang.SyncOps2 Lang.AsyncOps Lang.Prog Sched.Dfs Sched.Random Sched.Replay.
 Extraction Language OCaml.
 Separate Extraction
   N.add N.mul N.sub N.div N.modulo N.eqb N.ltb N.leb N.of_nat N.to_nat N.succ N.pred N.compare
